@@ -2740,6 +2740,52 @@ def c02n(F, R):
         raise Anchor("no set-operator impls found")
 
 
+@rule("C01", "C01.r.nothing-is-claimed-about-the-zero-register", floor=1)
+def c01r(F, R):
+    """x0 reads as 0 whatever is "written" to it: between the last statement that can put a fact into out[n] and its publication the zero register is removed from the map (`out -= const_zero_set()`), or `addi x0, sp, 0` leaves the claim x0 = sp behind and `lw t0, 0(x0)` is resolved as a stack load"""
+    f = _avpass_run(F)
+    setters = fact_setters(F)
+    set_out = [p for p, fld in setters.items() if fld == "reg_values_out"][0]
+    body = f["hir"]["value"]
+    pubs = [n for n in walk(body, pats=False) if n.get("k") in ("MethodCall", "Call") and callee_of(n) == set_out]
+    pubs = [n for n in pubs if peel(call_recv_args(n)[1][0]).get("k") == "Path" and peel(call_recv_args(n)[1][0]).get("res_kind") == "Local"]
+    if not pubs:
+        raise Anchor("set_reg_values_out is not called with computed facts")
+    OUT = ekey(call_recv_args(pubs[0])[1][0])
+    done = False
+    for b, i in blocks_with_let(body, OUT):
+        stmts = b["stmts"]
+        pub = None
+        for j in range(i + 1, len(stmts)):
+            if any(y is pubs[0] for y in walk(stmts[j], pats=False)):
+                pub = j
+        if pub is None:
+            continue
+        done = True
+        last_add = i
+        removal = None
+        for j in range(i + 1, pub):
+            st = stmts[j]
+            for n in walk(st, pats=False):
+                if n.get("k") == "AddrOf" and n.get("mut") and ekey(n["e"]) == OUT:
+                    last_add = j
+                if n.get("k") == "MethodCall" and n["name"] in ("insert", "extend") and ekey(n["recv"]).lstrip("&*") == OUT:
+                    last_add = j
+                if n.get("k") == "Assign" and ekey(n["l"]) == OUT:
+                    last_add = j
+            e = peel(st.get("e") or {})
+            if e.get("k") == "AssignOp" and e["op"] == "SubAssign" and ekey(e["l"]) == OUT and mentions_call(e["r"], "const_zero_set"):
+                removal = j
+        if removal is not None and removal > last_add:
+            R.ok("x0-removed-last", detail=f"`{OUT} -= const_zero_set()` after the last statement that can add a fact and before the publication", where=loc(stmts[removal]))
+        elif removal is not None:
+            R.bad("x0-removed-last", f"x0 is removed from `{OUT}` before a later statement (index {last_add}) can put a fact about it back: the removal has to be the last word", loc(stmts[removal]))
+        else:
+            R.bad("x0-removed-last", f"`{OUT}` is published without removing the zero register: an instruction whose destination is x0 (`addi x0, sp, 0`, `addi x0, x0, 5`) leaves a claim about x0 behind (x0 = sp, x0 = 5), and a later `lw t0, 0(x0)` is resolved through it", loc(stmts[pub]))
+    if not done:
+        R.bad("shape", f"UNEXTRACTABLE: `{OUT}` is not built and published in one block", f["sp"])
+
+
 @rule("C13", "C13.g.zero-register-operands-fold-as-zero", floor=1)
 @rule("C01", "C01.m.zero-register-operands-fold-as-zero", floor=1)
 def c01m(F, R):
